@@ -93,6 +93,34 @@ where
             }
         }
     }
+    // state that survives between operations (scratch buffers, caches): large operations in DECREASING size
+    // order on this thread, and every earlier artefact verified again after all later operations
+    {
+        let (sk, pk) = rand_keypair::<CS>(h);
+        let shapes: Vec<(usize, usize)> = if thorough {
+            vec![(0, 70000), (1200, 0), (0, 40000), (400, 16), (0, 20000), (350, 0), (3, 17000), (300, 0), (2, 5), (0, 0)]
+        } else {
+            vec![(0, 70000), (400, 0), (0, 40000), (350, 16), (0, 20000), (3, 17000), (2, 5), (0, 0)]
+        };
+        let mut made = Vec::new();
+        for (l, hl) in shapes {
+            let msgs = rand_msgs(h, l);
+            let hdr: Option<Vec<u8>> = if hl == 0 { None } else { Some(h.rng.bytes(hl)) };
+            h.stat("C01.history");
+            let s = sign::<CS>(h, &sk, &pk, hdr.as_deref(), Some(&msgs));
+            let sid = h.last();
+            h.expect(s.is_ok(), "C01.sign_history", "sign failed on valid input (after larger operations on the same thread)", &[sid]);
+            if let Some(s) = s.ok() {
+                let v = verify::<CS>(h, &pk, s.bbsPlusSignature(), hdr.as_deref(), Some(&msgs));
+                h.expect(v.is_ok(), "C01.verify_history", "verify(sign(x)) != Ok after larger operations on the same thread", &[sid, h.last()]);
+                made.push((s, hdr, msgs, sid));
+            }
+        }
+        for (s, hdr, msgs, sid) in &made {
+            let v = verify::<CS>(h, &pk, s.bbsPlusSignature(), hdr.as_deref(), Some(msgs));
+            h.expect(v.is_ok(), "C01.reverify_history", "a signature that verified no longer verifies after other operations on the same thread", &[*sid, h.last()]);
+        }
+    }
 }
 
 fn flip(b: &[u8], bit: usize) -> Vec<u8> {
@@ -172,6 +200,31 @@ where
         }
         // other key
         reject(h, "other_pk", &msgs, hdr.as_deref(), &pk2, &sig);
+        // a long header and a long message altered without changing their length (first octet, around octets 32
+        // and 64, last octet), each directly after the honest verification
+        if k < 2 {
+            let hl = [100usize, 33][k % 2];
+            let lh = h.rng.bytes(hl);
+            let mut lm = distinct_msgs(h, 2);
+            lm[0] = h.rng.bytes(hl);
+            if let Some(s2) = sign::<CS>(h, &sk, &pk, Some(&lh), Some(&lm)).ok() {
+                let sg2 = s2.bbsPlusSignature().clone();
+                let mut pos: Vec<usize> = vec![0, 31, 32, 63, 64, hl - 1];
+                pos.retain(|&x| x < hl);
+                for x in pos {
+                    let v = verify::<CS>(h, &pk, &sg2, Some(&lh), Some(&lm));
+                    h.expect(v.is_ok(), "C02.honest", "honest signature with a long header does not verify", &[h.last()]);
+                    let mut h2 = lh.clone();
+                    h2[x] ^= 0x20;
+                    reject(h, "hdr_same_length", &lm, Some(&h2), &pk, &sg2);
+                    let v = verify::<CS>(h, &pk, &sg2, Some(&lh), Some(&lm));
+                    h.expect(v.is_ok(), "C02.honest", "honest signature with a long header does not verify", &[h.last()]);
+                    let mut m2 = lm.clone();
+                    m2[0][x] ^= 0x20;
+                    reject(h, "msg_same_length", &m2, Some(&lh), &pk, &sg2);
+                }
+            }
+        }
         // component edits
         let mut s2 = sig.clone();
         s2.e += Scalar::ONE;
